@@ -62,6 +62,15 @@ fn gen_case(rng: &mut Rng, threads: usize) -> Case {
     let span = [2u32, 3, 6, 40][rng.below(4)];
     let big = rng.chance(1, 4);
     let mut ops = vec![];
+    if rng.chance(1, 5) {
+        // churn: a prefix of rows that are never touched again, then rounds of overwrites that leave enough
+        // stale rows behind to trigger a compaction in which the prefix keeps its position
+        let kind = ["new", "max"][rng.below(2)];
+        let pre = 1 + rng.below(8) as u32; let churn = 12 + rng.below(20) as u32; let rounds = 2 + rng.below(4) as u32;
+        ops.push(Op::Merge(vec![], (0..pre).map(|k| vec![k, 0]).collect()));
+        for r in 1..=rounds { ops.push(Op::Merge(vec![], (0..churn).map(|k| vec![100 + k, r]).collect())); if rng.chance(1, 3) { ops.push(Op::Merge(vec![], vec![vec![200 + r, 0]])); } }
+        return Case { nkeys: 1, kind, sorted, ops, threads };
+    }
     for _ in 0..nops {
         match rng.below(14) {
             0 => ops.push(Op::Clear),
@@ -118,6 +127,20 @@ fn run_real(c: &Case) -> (Vec<String>, Option<String>) {
         if fail.is_none() && show_rows(rows.clone()) != show_rows(want.clone()) { fail = Some(format!("op {oi}: full scan returns `{}`, the keyed map holds `{}`", show_rows(rows.clone()), show_rows(want.clone()))); }
         if fail.is_none() && t.len() != spec.len() { fail = Some(format!("op {oi}: len() = {}, the keyed map has {} rows", t.len(), spec.len())); }
         if c.sorted && fail.is_none() { let tsc = c.nkeys + 1; if rows.windows(2).any(|w| w[0][tsc] > w[1][tsc]) { fail = Some(format!("op {oi}: scan not in timestamp order")); } }
+        // timestamp-range subsets (what semi-naive evaluation reads) after every op, so also right after a compaction
+        if c.sorted && fail.is_none() {
+            let tsc = c.nkeys + 1;
+            for tau in [1u32, ts / 2 + 1, ts, ts + 1] {
+                for (kname, k) in [("ge", Constraint::GeConst { col: ColumnId::new(tsc as u32), val: v(tau) }), ("lt", Constraint::LtConst { col: ColumnId::new(tsc as u32), val: v(tau) })] {
+                    if let Some(fs) = t.fast_subset(&k) {
+                        let mut got = vec![];
+                        t.scan_generic(fs.as_ref(), |_, row| got.push(row.iter().map(|x| x.rep()).collect::<Vec<u32>>()));
+                        let want: Vec<Vec<u32>> = spec.values().filter(|r| if kname == "ge" { r[tsc] >= tau } else { r[tsc] < tau }).cloned().collect();
+                        if fail.is_none() && show_rows(got.clone()) != show_rows(want.clone()) { fail = Some(format!("op {oi}: timestamp-range subset ({kname} {tau}) returns `{}`, the keyed map holds `{}`", show_rows(got), show_rows(want))); }
+                    }
+                }
+            }
+        }
         // point lookups over the key universe seen so far
         let mut keys: Vec<Vec<u32>> = spec.keys().cloned().collect();
         if let Op::Merge(dels, _) = op { keys.extend(dels.iter().cloned()); }
